@@ -11,6 +11,7 @@ import (
 	"github.com/ethereum/go-ethereum/common"
 	"github.com/ethereum/go-ethereum/core/state"
 	ethtypes "github.com/ethereum/go-ethereum/core/types"
+	"github.com/ethereum/go-ethereum/core/vm"
 	"github.com/ethereum/go-ethereum/crypto"
 
 	evertypes "github.com/EscanBE/evermint/v12/types"
@@ -42,6 +43,8 @@ func DiffGeth(run *vh.Run) {
 	run.Floor("transactions compared", run.Get("tx_compared"), int64(run.N(900, 20000)))
 	run.Floor("with refund", run.Get("tx_with_sstore_clear_candidate"), int64(run.N(50, 1000)))
 	run.Floor("outcome classes", int64(run.DistinctN("outcome")), 5)
+	run.Floor("transfers of the sender's entire balance minus the fee", run.Get("sweep_transfers_of_the_entire_balance"), int64(run.N(8, 150)))
+	run.Floor("creation transactions whose init code is a generated program", run.Get("creation_txs_whose_init_code_is_a_generated_program"), int64(run.N(15, 300)))
 	run.Assumptions = append(run.Assumptions,
 		"the reference is the fork's own interpreter (property's definition): interpreter bugs common to both sides are invisible",
 		"scope fence: senders hold >= gasLimit x feeCap + value (go-ethereum refuses below that at consensus level; evermint's admission is covered by C05/C06/C09)",
@@ -313,6 +316,27 @@ func diffWorld(run *vh.Run, label string, wi int, nBlocks int) {
 				}
 			}
 		}
+		if b%8 == 3 { // "send max": a fresh key is funded, then transfers exactly what it holds minus the fee (legacy price, 21000 gas)
+			funder := vh.Pick(r, w.EOAs)
+			if w.C.Balance(funder.Addr).Cmp(vh.Ether(100)) >= 0 {
+				k := vh.NewAcct(r)
+				known[k.Addr] = struct{}{}
+				amt := new(big.Int).Add(vh.Ether(1), big.NewInt(int64(r.Intn(1_000_000_000))))
+				runPlans([]*vh.TxPlan{w.PlanEth(funder, &k.Addr, amt, 21000, nil, "ok", nil)})
+				if bal := w.C.Balance(k.Addr); bal.Sign() > 0 {
+					price := new(big.Int).Mul(w.C.BaseFee(), big.NewInt(int64(2+r.Intn(3))))
+					fee := new(big.Int).Mul(price, big.NewInt(21000))
+					if bal.Cmp(fee) > 0 {
+						to := vh.Pick(r, w.Pool)
+						runPlans([]*vh.TxPlan{w.PlanEth(k, &to, new(big.Int).Sub(bal, fee), 21000, nil, "ok", &vh.FeeShape{Type: r.Intn(2), Price: price, Kind: "sweep"})})
+						run.Count("sweep_transfers_of_the_entire_balance", 1)
+					}
+				}
+				if run.Violations() > 0 {
+					return
+				}
+			}
+		}
 		var plans []*vh.TxPlan
 		n := r.Range(1, 5)
 		for i := 0; i < n; i++ {
@@ -332,7 +356,21 @@ func diffWorld(run *vh.Run, label string, wi int, nBlocks int) {
 			case k == 1:
 				p := vh.GenProgram(r, vh.ProgOpts{Pool: w.Pool, Callees: contractAddrs(w), MaxLen: 6, Depth: 2})
 				gas := uint64(vh.Pick(r, []int{54000, 70000, 150000, 600000, 3_000_000}))
-				plans = append(plans, w.PlanEth(s, nil, value, gas, vh.Deployer(p.Code), "ok", nil))
+				code := vh.Deployer(p.Code)
+				if r.Bool() { // the generated program IS the init code: it runs (probes, calls, stores) inside the creation transaction
+					code = p.Code
+					run.Count("creation_txs_whose_init_code_is_a_generated_program", 1)
+				}
+				plans = append(plans, w.PlanEth(s, nil, value, gas, code, "ok", nil))
+			case k == 2:
+				// init code that probes addresses cold: the zero address (what a creation "is sent to"), a precompile, pool members
+				a := vh.NewAsm()
+				for _, t := range []common.Address{{}, vh.Pick(r, w.Pool), common.BytesToAddress([]byte{byte(1 + r.Intn(9))}), {}} {
+					a.PushAddr(t).Op(vh.Pick(r, []vm.OpCode{vm.BALANCE, vm.EXTCODESIZE, vm.EXTCODEHASH}), vm.POP)
+				}
+				a.Op(vm.STOP)
+				plans = append(plans, w.PlanEth(s, nil, value, uint64(vh.Pick(r, []int{60000, 64000, 70000, 200000})), a.Bytes(), "ok", nil))
+				run.Count("creation_txs_probing_the_zero_address_cold", 1)
 			default:
 				c := vh.Pick(r, w.Contracts)
 				gas := uint64(vh.Pick(r, []int{21000, 21064, 22000, 24000, 30000, 45000, 70000, 120000, 300000, 2_000_000}))
